@@ -70,7 +70,16 @@ class _M:
         self.merged = st.targets[0].id
         self.key = dotted(st.value.args[0])
         ctx.require(self.key is not None, "_merge: identity-map lookup key is not a name")
-        self.none_tests = [n.id for n in g.nodes if n.kind == "test" and set(test_atoms(n.stmt.test)) == {(f"{self.merged} is None", True)}]
+        # outcomes of a `merged is [not] None` test that mean "an instance was found" (either spelling of the test)
+        self.found_edges = set()
+        for n in g.nodes:
+            if n.kind == "test":
+                ats = set(test_atoms(n.stmt.test))
+                if ats == {(f"{self.merged} is None", True)}:
+                    self.found_edges.add((n.id, "false"))
+                elif ats == {(f"{self.merged} is None", False)}:
+                    self.found_edges.add((n.id, "true"))
+        self.none_tests = sorted({n for n, _ in self.found_edges})
         self.new_inst = call_nodes(g, lambda c: callee_is(c, "new_instance") and not c.args)
         self.sess_get = call_nodes(g, lambda c: callee_is(c, "self.get"))
         self.prop_merge = call_nodes(g, lambda c: isinstance(c.func, ast.Attribute) and c.func.attr == "merge" and len(c.args) >= 8)
@@ -100,7 +109,7 @@ class _M:
 
     def not_found_only(self, a, b, lab):
         """edge filter: normal edges, never the `merged is None` -> False outcome (nothing is created once an instance was found)."""
-        return lab != "exc" and not (a in self.none_tests and lab == "false")
+        return lab != "exc" and (a, lab) not in self.found_edges
 
 
 def _load_atoms(g, node) -> Set[Tuple[str, bool]]:
@@ -190,7 +199,12 @@ def r2(ctx):
     for name in ("merge", "merge_all"):
         fm = ctx.func(f"{SESSION}::Session.{name}")
         rv = [r.value for r in walk_local(fm.node) if isinstance(r, ast.Return) and r.value is not None]
-        good = bool(rv) and all(any(callee_is(c, "self._merge") for c in calls_in(v)) for v in rv)
+        # (`result = self._merge(...)` / `return result`: a local every binding of which holds _merge's result)
+        by: Dict[str, List] = {}
+        for n_, v_, s_ in name_stores(fm.node):
+            by.setdefault(n_, []).append(v_)
+        holds = {n_ for n_, vs in by.items() if all(v_ is not None and any(callee_is(c, "self._merge") for c in calls_in(v_)) for v_ in vs)}
+        good = bool(rv) and all(any(callee_is(c, "self._merge") for c in calls_in(v)) or (isinstance(v, ast.Name) and v.id in holds) for v in rv)
         ctx.check(good, f"{fm.key}:returns-merged", f"Session.{name} does not return the result of _merge", "return self._merge(...)", fm.loc)
 
 
@@ -290,10 +304,13 @@ def r3(ctx):
     # Session.merge: autoflush only under load (also C47-R1; here for the no-SQL clause)
     # _commit_all on every not-load path
     commits = call_nodes(g, lambda c: callee_is(c, "_commit_all") and dotted(c.func.value) in m.dest_state)
-    load_tests = [n.id for n in g.nodes if n.kind == "test" and set(test_atoms(n.stmt.test)) == {("load", False)}]
+    # outcomes of a plain `load` / `not load` test under which load is true (not the load=False contract)
+    load_true = {(n.id, "false") for n in g.nodes if n.kind == "test" and set(test_atoms(n.stmt.test)) == {("load", False)}} \
+        | {(n.id, "true") for n in g.nodes if n.kind == "test" and set(test_atoms(n.stmt.test)) == {("load", True)}}
+    load_tests = sorted({n for n, _ in load_true})
     starts = [n for n, k, v in m.rec_store]
     rets = [n.id for n in g.nodes if n.kind == "stmt" and isinstance(n.stmt, ast.Return) and n.stmt.value is not None and dotted(n.stmt.value) == m.merged]
-    w = g.must_pass(starts, rets, commits, edge_ok=lambda a, b, lab: lab != "exc" and not (a in load_tests and lab == "false"))
+    w = g.must_pass(starts, rets, commits, edge_ok=lambda a, b, lab: lab != "exc" and (a, lab) not in load_true)
     ctx.check(bool(commits) and bool(load_tests) and w is None, f"{f.key}:stamped-instance-committed-clean",
               "with load=False the merged instance can be returned without _commit_all(): expired markers / history left on it make it look changed", "if not load: merged_state._commit_all(...)", f.loc, w)
 
@@ -592,3 +609,206 @@ R.mutant("benign-column-merge-branches-swapped", PROPS, sub("            if not 
                                                             "            if load:\n                attr_impl = dest_state.get_impl(self.key)\n                attr_impl.set(dest_state, dest_dict, value, None)\n            else:\n                dest_dict[self.key] = value\n"), None)
 R.mutant("benign-merge-result-uses-context-manager", LOADING, sub("                    newrow[i] = session._merge(\n                        attributes.instance_state(newrow[i]),\n                        attributes.instance_dict(newrow[i]),\n                        load=load,\n                        _recursive={},\n                        _resolve_conflict_map={},\n                    )\n\n            result.append(keyed_tuple(newrow))\n",
                                                                 "                    _st = attributes.instance_state(newrow[i])\n                    newrow[i] = session._merge(\n                        _st,\n                        attributes.instance_dict(newrow[i]),\n                        load=load,\n                        _recursive={},\n                        _resolve_conflict_map={},\n                    )\n\n            result.append(keyed_tuple(newrow))\n"), None)
+_RFI7 = chain(
+    sub('            if mapper.version_id_col is not None:\n'
+             '                existing_version = mapper._get_state_attr_by_column(\n'
+             '                    state,\n'
+             '                    state_dict,\n'
+             '                    mapper.version_id_col,\n'
+             '                    passive=PassiveFlag.PASSIVE_NO_INITIALIZE,\n'
+             '                )\n'
+             '\n'
+             '                merged_version = mapper._get_state_attr_by_column(\n'
+             '                    merged_state,\n'
+             '                    merged_dict,\n'
+             '                    mapper.version_id_col,\n'
+             '                    passive=PassiveFlag.PASSIVE_NO_INITIALIZE,\n'
+             '                )\n'
+             '\n'
+             '                if (\n'
+             '                    existing_version\n'
+             '                    is not LoaderCallableStatus.PASSIVE_NO_RESULT\n'
+             '                    and merged_version\n'
+             '                    is not LoaderCallableStatus.PASSIVE_NO_RESULT\n'
+             '                    and existing_version != merged_version\n'
+             '                ):\n'
+             '                    raise exc.StaleDataError(\n'
+             '                        "Version id \'%s\' on merged state %s "\n'
+             '                        "does not match existing version \'%s\'. "\n'
+             '                        "Leave the version attribute unset when "\n'
+             '                        "merging to update the most recent version."\n'
+             '                        % (\n'
+             '                            existing_version,\n'
+             '                            state_str(merged_state),\n'
+             '                            merged_version,\n'
+             '                        )\n'
+             '                    )\n',
+        '            self._merge_check_version(\n'
+             '                mapper, state, state_dict, merged_state, merged_dict\n'
+             '            )\n'),
+    sub('\n'
+             '        return merged\n',
+        '\n'
+             '        return merged\n'
+             '\n'
+             '    def _merge_check_version(\n'
+             '        self,\n'
+             '        mapper: Mapper[Any],\n'
+             '        state: InstanceState[Any],\n'
+             '        state_dict: _InstanceDict,\n'
+             '        merged_state: InstanceState[Any],\n'
+             '        merged_dict: _InstanceDict,\n'
+             '    ) -> None:\n'
+             '        """Raise StaleDataError if the given state being merged carries a\n'
+             '        version id that differs from that of the merge target."""\n'
+             '\n'
+             '        if mapper.version_id_col is None:\n'
+             '            return\n'
+             '\n'
+             '        existing_version = mapper._get_state_attr_by_column(\n'
+             '            state,\n'
+             '            state_dict,\n'
+             '            mapper.version_id_col,\n'
+             '            passive=PassiveFlag.PASSIVE_NO_INITIALIZE,\n'
+             '        )\n'
+             '\n'
+             '        merged_version = mapper._get_state_attr_by_column(\n'
+             '            merged_state,\n'
+             '            merged_dict,\n'
+             '            mapper.version_id_col,\n'
+             '            passive=PassiveFlag.PASSIVE_NO_INITIALIZE,\n'
+             '        )\n'
+             '\n'
+             '        if (\n'
+             '            existing_version is not LoaderCallableStatus.PASSIVE_NO_RESULT\n'
+             '            and merged_version is not LoaderCallableStatus.PASSIVE_NO_RESULT\n'
+             '            and existing_version != merged_version\n'
+             '        ):\n'
+             '            raise exc.StaleDataError(\n'
+             '                "Version id \'%s\' on merged state %s "\n'
+             '                "does not match existing version \'%s\'. "\n'
+             '                "Leave the version attribute unset when "\n'
+             '                "merging to update the most recent version."\n'
+             '                % (\n'
+             '                    existing_version,\n'
+             '                    state_str(merged_state),\n'
+             '                    merged_version,\n'
+             '                )\n'
+             '            )\n'))
+R.mutant('benign-rfI_7-version-check-extracted', SESSION, _RFI7, None)
+R.mutant("version-check-helper-compares-with-itself", SESSION, chain(_RFI7, sub(
+    "            merged_state,\n            merged_dict,\n            mapper.version_id_col,\n",
+    "            state,\n            state_dict,\n            mapper.version_id_col,\n")), "C45-R7")
+R.mutant('benign-rfI_8-column-merge-alias-and-inverted', PROPS,
+         sub('    ) -> None:\n'
+             '        if not self.instrument:\n'
+             '            return\n'
+             '        elif self.key in source_dict:\n'
+             '            value = source_dict[self.key]\n'
+             '\n'
+             '            if not load:\n'
+             '                dest_dict[self.key] = value\n'
+             '            else:\n'
+             '                impl = dest_state.get_impl(self.key)\n'
+             '                impl.set(dest_state, dest_dict, value, None)\n'
+             '        elif dest_state.has_identity and self.key not in dest_dict:\n'
+             '            dest_state._expire_attributes(\n'
+             '                dest_dict, [self.key], no_loader=True\n'
+             '            )\n',
+        '    ) -> None:\n'
+             '        if not self.instrument:\n'
+             '            return\n'
+             '\n'
+             '        prop_key = self.key\n'
+             '        if prop_key in source_dict:\n'
+             '            value = source_dict[prop_key]\n'
+             '\n'
+             '            if load:\n'
+             '                # set via the attribute system so that history is recorded\n'
+             '                impl = dest_state.get_impl(prop_key)\n'
+             '                impl.set(dest_state, dest_dict, value, None)\n'
+             '            else:\n'
+             '                dest_dict[prop_key] = value\n'
+             '        elif dest_state.has_identity:\n'
+             '            if prop_key not in dest_dict:\n'
+             '                dest_state._expire_attributes(\n'
+             '                    dest_dict, [prop_key], no_loader=True\n'
+             '                )\n'), None)
+R.mutant('benign-rfI_9-merge-related-helper', RELS, chain(
+    sub('                current_state = attributes.instance_state(current)\n'
+             '                current_dict = attributes.instance_dict(current)\n'
+             '                _recursive[(current_state, self)] = True\n'
+             '                obj = session._merge(\n'
+             '                    current_state,\n'
+             '                    current_dict,\n'
+             '                    load=load,\n'
+             '                    _recursive=_recursive,\n'
+             '                    _resolve_conflict_map=_resolve_conflict_map,\n'
+             '                )\n'
+             '                if obj is not None:\n',
+        '                obj = self._merge_related_instance(\n'
+             '                    session, current, load, _recursive, _resolve_conflict_map\n'
+             '                )\n'
+             '                if obj is not None:\n'),
+    sub('                current_state = attributes.instance_state(current)\n'
+             '                current_dict = attributes.instance_dict(current)\n'
+             '                _recursive[(current_state, self)] = True\n'
+             '                obj = session._merge(\n'
+             '                    current_state,\n'
+             '                    current_dict,\n'
+             '                    load=load,\n'
+             '                    _recursive=_recursive,\n'
+             '                    _resolve_conflict_map=_resolve_conflict_map,\n'
+             '                )\n'
+             '            else:\n',
+        '                obj = self._merge_related_instance(\n'
+             '                    session, current, load, _recursive, _resolve_conflict_map\n'
+             '                )\n'
+             '            else:\n'),
+    sub('                    dest_state, dest_dict, obj, None\n'
+             '                )\n',
+        '                    dest_state, dest_dict, obj, None\n'
+             '                )\n'
+             '\n'
+             '    def _merge_related_instance(\n'
+             '        self,\n'
+             '        session: Session,\n'
+             '        current: Any,\n'
+             '        load: bool,\n'
+             '        _recursive: Dict[Any, object],\n'
+             '        _resolve_conflict_map: Dict[_IdentityKeyType[Any], object],\n'
+             '    ) -> Any:\n'
+             '        """Cascade a merge operation to a single related object, marking\n'
+             '        this relationship as visited for it."""\n'
+             '\n'
+             '        current_state = attributes.instance_state(current)\n'
+             '        current_dict = attributes.instance_dict(current)\n'
+             '        _recursive[(current_state, self)] = True\n'
+             '        return session._merge(\n'
+             '            current_state,\n'
+             '            current_dict,\n'
+             '            load=load,\n'
+             '            _recursive=_recursive,\n'
+             '            _resolve_conflict_map=_resolve_conflict_map,\n'
+             '        )\n')), None)
+# further benign variants of the same families (rob-I)
+R.mutant("benign-merge-result-in-local", SESSION,
+         sub("        with self.no_autoflush:\n            return self._merge(\n                object_state(instance),\n                attributes.instance_dict(instance),\n                load=load,\n                options=options,\n                _recursive={},\n                _resolve_conflict_map={},\n            )\n\n    def merge_all(",
+             "        with self.no_autoflush:\n            merged_instance = self._merge(\n                object_state(instance),\n                attributes.instance_dict(instance),\n                load=load,\n                options=options,\n                _recursive={},\n                _resolve_conflict_map={},\n            )\n        return merged_instance\n\n    def merge_all("), None)
+R.mutant("benign-new-instance-branches-swapped", SESSION,
+         sub("        if merged is None:\n            merged = mapper.class_manager.new_instance()\n            merged_state = attributes.instance_state(merged)\n            merged_dict = attributes.instance_dict(merged)\n            new_instance = True\n            self._save_or_update_state(merged_state)\n        else:\n            merged_state = attributes.instance_state(merged)\n            merged_dict = attributes.instance_dict(merged)\n",
+             "        if merged is not None:\n            merged_state = attributes.instance_state(merged)\n            merged_dict = attributes.instance_dict(merged)\n        else:\n            merged = mapper.class_manager.new_instance()\n            merged_state = attributes.instance_state(merged)\n            merged_dict = attributes.instance_dict(merged)\n            new_instance = True\n            self._save_or_update_state(merged_state)\n"), None)
+R.mutant("benign-commit-all-branch-inverted", SESSION,
+         sub("        if not load:\n            # remove any history\n            merged_state._commit_all(merged_dict, self.identity_map)\n",
+             "        if load:\n            pass\n        else:\n            # remove any history\n            merged_state._commit_all(merged_dict, self.identity_map)\n"), None)
+R.mutant("benign-memo-filing-extracted", SESSION, chain(
+    sub("        _recursive[state] = merged\n        _resolve_conflict_map[key] = merged\n\n",
+        "        self._file_merged(state, key, merged, _recursive, _resolve_conflict_map)\n\n"),
+    sub("    def _validate_persistent(self, state: InstanceState[Any]) -> None:\n",
+        "    def _file_merged(self, state, key, merged, _recursive, _resolve_conflict_map):  # type: ignore[no-untyped-def]  # noqa: E501\n        _recursive[state] = merged\n        _resolve_conflict_map[key] = merged\n\n    def _validate_persistent(self, state: InstanceState[Any]) -> None:\n")), None)
+# the followed helpers must still be judged
+R.mutant("merge-related-helper-fresh-conflict-map", RELS, chain(
+    sub("                current_state = attributes.instance_state(current)\n                current_dict = attributes.instance_dict(current)\n                _recursive[(current_state, self)] = True\n                obj = session._merge(\n                    current_state,\n                    current_dict,\n                    load=load,\n                    _recursive=_recursive,\n                    _resolve_conflict_map=_resolve_conflict_map,\n                )\n                if obj is not None:\n                    dest_list.append(obj)\n",
+        "                obj = self._merge_related_instance(\n                    session, current, load, _recursive, {}\n                )\n                if obj is not None:\n                    dest_list.append(obj)\n"),
+    sub("    def _value_as_iterable(\n",
+        "    def _merge_related_instance(self, session, current, load, _recursive, _resolve_conflict_map):  # type: ignore[no-untyped-def]  # noqa: E501\n        current_state = attributes.instance_state(current)\n        current_dict = attributes.instance_dict(current)\n        _recursive[(current_state, self)] = True\n        return session._merge(\n            current_state,\n            current_dict,\n            load=load,\n            _recursive=_recursive,\n            _resolve_conflict_map=_resolve_conflict_map,\n        )\n\n    def _value_as_iterable(\n")), "C45-R6")
